@@ -1328,6 +1328,16 @@ class Mailbox:
         self.mtime = await Mailbox.get_actual_mtime(
             self.server.mailbox, self.name
         )
+
+        # NOTE: We yielded to other tasks several times since we listed the
+        #       folder. Mail delivered meanwhile is covered by the mtime we
+        #       just read, and no later check would look at the folder again
+        #       until something else changes it. If the folder holds
+        #       messages we do not know, remember the mtime from before we
+        #       listed it so that the next check scans the folder again.
+        #
+        if set(int(x) for x in self.mailbox.keys()) - set(self.msg_keys):
+            self.mtime = start_mtime
         self.check_set_haschildren_attr()
         await self.commit_to_db()
 
